@@ -335,11 +335,10 @@ namespace nmtools::utils
             // "specialize" on index array, avoid using ndindex
             else if constexpr (meta::is_index_array_v<T> && meta::is_index_array_v<U>) {
                 bool equal = true;
-                // TODO: static assert whenever possible
-                // NOTE: use assert instead of exception, to support compile with -fno-exceptions
-                nmtools_cassert ( (nm_size_t)len(t)==(nm_size_t)len(u)
-                    , "mismatched dimension"
-                );
+                // index arrays of different length are different (never read past the shorter one)
+                if ((nm_size_t)len(t) != (nm_size_t)len(u)) {
+                    return false;
+                }
                 // prefer fixed size for indexing to allow constant index
                 if constexpr (meta::is_fixed_index_array_v<T>) {
                     constexpr auto N = meta::fixed_index_array_size_v<T>;
@@ -391,30 +390,43 @@ namespace nmtools::utils
                 return t == u;
             }
             else if constexpr (meta::is_ndarray_v<T> && meta::is_ndarray_v<U>) {
+                // arrays of different dimension or shape are different (no flat comparison)
+                constexpr auto static_dim_mismatch = [](){
+                    constexpr auto t_fdim = meta::fixed_dim_v<T>;
+                    constexpr auto u_fdim = meta::fixed_dim_v<U>;
+                    if constexpr (!meta::is_fail_v<decltype(t_fdim)> && !meta::is_fail_v<decltype(u_fdim)>) {
+                        return t_fdim != u_fdim;
+                    } else {
+                        return false;
+                    }
+                }();
+                if constexpr (static_dim_mismatch) {
+                    return false;
+                } else {
                 bool equal = true;
                 auto t_dim = ::nmtools::dim(t);
                 auto u_dim = ::nmtools::dim(u);
                 {
                     using common_t [[maybe_unused]] = meta::promote_index_t<decltype(t_dim),decltype(u_dim)>;
-                    // TODO: static assert whenever possible
-                    // NOTE: use assert instead of exception, to support compile with -fno-exceptions
-                    // TODO: use maybe type
-                    nmtools_cassert( ((common_t)t_dim == (common_t)u_dim)
-                        , "dimension mismatch for isequal"
-                    );
+                    if ((common_t)t_dim != (common_t)u_dim) {
+                        return false;
+                    }
                 }
                 auto t_shape = ::nmtools::shape(t);
                 auto u_shape = ::nmtools::shape(u);
                 auto t_indices = ndindex(t_shape);
                 auto u_indices = ndindex(u_shape);
-                // TODO: static assert whenever possible
                 auto t_size = t_indices.size();
                 auto u_size = u_indices.size();
                 {
                     using common_t [[maybe_unused]] = meta::promote_index_t<decltype(t_size),decltype(u_size)>;
-                    nmtools_cassert( ((common_t)t_size == (common_t)u_size)
-                        , "size mismatch for isequal"
-                    );
+                    if ((common_t)t_size != (common_t)u_size) {
+                        return false;
+                    }
+                    // same dimension and same size: the shapes are equal iff the last multi-indices are
+                    if ((t_size > 0) && !isequal(t_indices[t_size-1],u_indices[u_size-1])) {
+                        return false;
+                    }
                 }
                 using t_t = meta::get_element_or_common_type_t<T>;
                 using u_t = meta::get_element_or_common_type_t<U>;
@@ -422,6 +434,7 @@ namespace nmtools::utils
                 for (size_t i=0; i<t_indices.size(); i++)
                     equal = equal && ((common_t)apply_at(t, t_indices[i]) == (common_t)apply_at(u, u_indices[i]));
                 return equal;
+                } // static_dim_mismatch
             } else {
                 return error::ISEQUAL_UNSUPPORTED<T,U>{};
             }
